@@ -121,8 +121,12 @@ def make_sync_writer_factory(on_write=None):
 
         @asynccontextmanager
         async def open(self, path: Path):
+            # aiofile opens and closes the file through its I/O context: both are suspension points of the
+            # calling task (other tasks run between the caller's unlink and the creation of the file)
+            await asyncio.sleep(0)
             with open(path, self.MODE) as fp:
                 yield _W(fp)
+            await asyncio.sleep(0)
 
     return SyncWriterFactory
 
